@@ -313,6 +313,10 @@ class Returned(Exception):
         self.val = val
 
 
+class NeedDecision(Exception):
+    pass
+
+
 class MatInterp:
     """Evaluates loop-free methods/functions to matrix terms.  `assume` maps a scalar name to 'zero' / 'pos' / 'none' so
     that tests on it are decided statically (one run per case)."""
@@ -323,6 +327,8 @@ class MatInterp:
         self.self_attrs: Dict[str, Val] = {}
         self.depth = 0
         self.calls: List[str] = []
+        self.forced: Optional[List[bool]] = None        # decisions for data-dependent tests (path exploration)
+        self.met_tests: List[str] = []
 
     def dim(self, i: int, e: ast.AST, env: Dict[str, Val], fn: FuncInfo) -> T.Term:
         """Symbolic size of axis i (0 rows, 1 columns) of the matrix expression e."""
@@ -420,6 +426,12 @@ class MatInterp:
                     if 'input validation guards are assumed to pass' not in self.cx.notes:
                         self.cx.notes.append('input validation guards are assumed to pass')
                     continue
+                if tv is None and getattr(self, 'forced', None) is not None:
+                    # path exploration: the caller decides the data-dependent tests in order (and records which ones were met)
+                    self.met_tests.append(norm(s.test)[:60])
+                    if len(self.met_tests) > len(self.forced):
+                        raise NeedDecision(len(self.met_tests))
+                    tv = self.forced[len(self.met_tests) - 1]
                 if tv is None:
                     raise Unknown('data-dependent test `%s` in %s' % (norm(s.test)[:50], fn.qualname))
                 self.block(s.body if tv else s.orelse, env, fn)
@@ -463,6 +475,13 @@ class MatInterp:
             return env[t.id].v
         if isinstance(t, ast.Compare) and len(t.ops) == 1:
             l, r, op = t.left, t.comparators[0], t.ops[0]
+            # a matrix-valued operand has two dimensions
+            if isinstance(l, ast.Attribute) and l.attr == 'ndim' and isinstance(l.value, ast.Name) and env.get(l.value.id) is not None \
+                    and env[l.value.id].kind == 'mat' and isinstance(r, ast.Constant) and isinstance(r.value, int):
+                if isinstance(op, ast.Eq):
+                    return r.value == 2
+                if isinstance(op, ast.NotEq):
+                    return r.value != 2
             state = self._state_of(l, env, fn)
             if isinstance(r, ast.Constant) and r.value is None and isinstance(op, (ast.Is, ast.IsNot)) and state is not None:
                 isnone = state == 'none'
@@ -610,6 +629,13 @@ class MatInterp:
                 b = self.ev(e.value, env, fn)
                 if b.kind == 'tuple' and -len(b.v) <= e.slice.value < len(b.v):
                     return b.v[e.slice.value]
+            # one ELEMENT of a matrix, picked with constant indices: an opaque scalar (it has no relation to the matrix as a whole
+            # that the algebra could use, which is exactly what a formula built on it has to answer for)
+            if isinstance(e.slice, ast.Tuple) and len(e.slice.elts) == 2 and all(isinstance(x, ast.Constant) and isinstance(x.value, int)
+                                                                                  for x in e.slice.elts) and isinstance(e.value, ast.Name):
+                b = self.ev(e.value, env, fn)
+                if b.kind == 'mat':
+                    return Val('scal', T.Term.sym('elem[%s,%d,%d]' % (norm(e.value), e.slice.elts[0].value, e.slice.elts[1].value)))
             raise Unknown('subscript %s' % norm(e)[:40])
         if isinstance(e, (ast.Tuple, ast.List)):
             return Val('tuple', [self.ev(x, env, fn) for x in e.elts])
@@ -631,6 +657,13 @@ class MatInterp:
             if v.kind == 'scal':
                 return Val('scal', T.t_pow(v.v, T.Term.const(Fraction(1, 2))))
             raise Unknown('sqrt of a matrix')
+        if f in ('np.abs', 'abs', 'np.absolute', 'np.real', 'np.conj', 'np.conjugate') and len(c.args) == 1:
+            v = self.ev(c.args[0], env, fn)
+            if v.kind == 'scal':
+                # a function of an opaque scalar is another opaque scalar
+                return Val('scal', T.Term.atom(('call', short, (v.v.key(),))))
+            if v.kind != 'mat' or f not in ('np.conj', 'np.conjugate'):
+                raise Unknown('call %s of a %s' % (f, v.kind))
         if f in ('cast',) or f.endswith('.cast'):
             return self.ev(c.args[-1], env, fn)
         if f in ('float', 'int') and len(c.args) == 1:
@@ -850,3 +883,23 @@ def _strip_ops(e: ast.AST) -> Tuple[Optional[int], ast.AST]:
             continue
         break
     return (op if seen else None), e
+
+
+def explore_paths(model: Model, fn: FuncInfo, args: List['Val'], cx: 'Ctx', limit: int = 8):
+    """[(decisions, tests met, returned Val or Unknown)] for every path of fn obtained by deciding its data-dependent tests both ways."""
+    out = []
+    work = [[]]
+    while work and len(out) < limit:
+        dec = work.pop()
+        it = MatInterp(model, cx, None)
+        it.forced = list(dec)
+        it.met_tests = []
+        try:
+            v = it.call_function(fn, list(args), {})
+            out.append((dec, list(it.met_tests), v))
+        except NeedDecision:
+            work.append(dec + [True])
+            work.append(dec + [False])
+        except Unknown as e:
+            out.append((dec, list(it.met_tests), e))
+    return out
